@@ -496,8 +496,26 @@ class Dynamic(Parameter):
         super().__init__(default=default, **params)
 
         if callable(self.default):
+            self._check_generator(self.default)
             self._set_instantiate(True)
             self._initialize_generator(self.default)
+
+    def _check_generator(self, gen):
+        """
+        A callable acts as a value generator only if it can carry the
+        'last time' and 'last value' attributes; one that cannot (a
+        builtin) is refused before anything is stored.
+        """
+        if hasattr(gen, '_Dynamic_last'):
+            return
+        try:
+            gen._Dynamic_probe = None
+            del gen._Dynamic_probe
+        except (AttributeError, TypeError):
+            raise TypeError(
+                f"{_validate_error_prefix(self)} cannot use {gen!r} as a "
+                "dynamic value: it does not accept attributes"
+            ) from None
 
 
     def _initialize_generator(self,gen,obj=None):
@@ -538,9 +556,11 @@ class Dynamic(Parameter):
 
         If val is dynamic, initialize it as a generator.
         """
+        dynamic = callable(val)
+        if dynamic and not (obj is not None and self.allow_refs):
+            self._check_generator(val)
         super().__set__(obj,val)
 
-        dynamic = callable(val)
         if dynamic and obj is not None and self.allow_refs:
             # A callable reference (depends method, bound function,
             # reactive expression) was resolved by the superclass; what
